@@ -387,6 +387,7 @@ func (s *seqSt) emitXfer(kind string, v int, pre, post slice, denomOk bool, amou
 		s.out.Note("err:" + kind + ":" + errClass(err))
 		if cls == kapp.Panic {
 			s.out.Violation(fmt.Sprintf("seq=%d op=%d %s panicked: %v", s.seq, s.opNo, kind, err))
+			fmt.Fprintf(os.Stderr, "c12: seq=%d op=%d %s panicked: %v\n", s.seq, s.opNo, kind, err)
 		}
 	}
 	// x/staking's registered invariants on the real state after every successful operation (C02 feeds on this)
